@@ -30,6 +30,31 @@ func notClaimed() [][2]string {
 func props() []prop {
 	return []prop{
 		{
+			ID: "C02", Level: "exploration",
+			LevelText:   "Reference-FIFO lock-step comparison of the real RingQueue over an exhaustive grid of (initial size, head offset, burst) covering every growth boundary at every wrap position plus long PRNG walks; porcupine linearizability check of free-running MPSC histories under the race detector; per-sender sequence monitor, system-before-user rule, kill-ordering gates and a sequential stash reference model on the real actor runtime in virtual time.",
+			LevelNote:   "Trusted: slice FIFO reference, porcupine v1.3.0, the 25-line stash model. Two concurrent Pops are never generated (the mailbox has a single consumer by construction, C01).",
+			Technique:   "reference-model comparison + linearizability checking of recorded histories (porcupine) + ordering monitors over recorded traces",
+			DesignRef:   "DESIGN.md §4 C02",
+			Assumptions: with("one consumer per queue (guaranteed by the mailbox's idle/processing election, checked under C01)"),
+			Units: []unit{
+				{Check: "ringref", Pkg: "internal/queues", Timeout: [2]time.Duration{3 * min, 20 * min}},
+				{Check: "ringlin", Pkg: "internal/queues", Race: true, Shards: [2]int{4, 16}, Timeout: [2]time.Duration{5 * min, 30 * min}, CrashKey: "crash"},
+				{Check: "ringfifo", Pkg: "internal/queues", Race: true, Shards: [2]int{4, 8}, Timeout: [2]time.Duration{5 * min, 30 * min}, CrashKey: "crash"},
+			},
+		},
+		{
+			ID: "C17", Level: "exploration",
+			LevelText:   "Merge-law oracle (commutative / associative / idempotent w.r.t. member->(generation,logical clock); union; newest incarnation; no removal; no regression; epoch and members' vector entries never lowered; changed flag; inputs untouched; stored states are clones) evaluated on results of the real MergeFromWithOptions/AddMember/Snapshot over a pool of views generated only through the API calls the node itself makes; all ordered pairs of the pool x 3 strategies x 3 clock-skew settings, PRNG triples x 6 orders x 2 associations.",
+			LevelNote:   "Trusted: the generator mirrors NodeActor's use of the view API (IncrementVersion only for the owning member, generation and logical clock bumped together on restart); states with LogicalClock==0 (legacy marker never produced by the current API) are outside the domain.",
+			Technique:   "runtime law oracle over API-reachable states (pairs exhaustive over a generated pool, triples sampled)",
+			DesignRef:   "DESIGN.md §4 C17",
+			Assumptions: with("views are generated through the public view API in the way NodeActor uses it", "membership equality is member -> (generation, logical clock), as the property states"),
+			Units: []unit{{
+				Check: "viewlaws", Pkg: "internal/cluster",
+				Shards: [2]int{4, 16}, Timeout: [2]time.Duration{3 * min, 30 * min},
+			}},
+		},
+		{
 			ID: "C16", Level: "exploration",
 			LevelText:   "Algebraic-law oracle evaluated by the real VersionVector methods over an exhaustively enumerated small domain (3 ids x {absent,0,1,2,MAX-1,MAX}: every vector, every ordered pair; every triple in the thorough tier) plus PRNG vectors over up to 12 ids, cross-checked against an independent entry-wise model. Exhaustive on that domain, sampled beyond it; the laws are finite-instance checkable, so this is the right level for a pure data type.",
 			LevelNote:   "Trusted: the 20-line entry-wise model (missing entry == 0) and the harness. Domain restricted to counters <= maxCounterValue, which is all the API can produce.",
